@@ -406,9 +406,8 @@ tp_task_stop(tp_task_p tptask) {
 	if (NULL == tptask)
 		return;
 	tpt_ev_del_args1(tptask->event, &tptask->tp_data);
-	if (0 != tptask->timeout) {
-		tpt_ev_del_args1(TP_EV_TIMER, &tptask->tp_timer);
-	}
+	/* Always: connect_ex arms tp_timer for retry_delay even if timeout = 0. */
+	tpt_ev_del_args1(TP_EV_TIMER, &tptask->tp_timer);
 }
 
 
